@@ -14,7 +14,7 @@ import (
 func init() {
 	register(&Prop{
 		ID:          "C15",
-		Explanation: "Decides which request data can reach the bypass decisions: the string given to every skip-auth route regex is, on every path, query- and fragment-free — the Path of url.Parse(u), u cut at the first '?', or u itself under the fact that it contains no '?', where u is the guarded request-URI accessor's result (taint rule, unknown origin = violation); isAllowedMethod is true only for an empty rule method or equality with req.Method, isAllowedRoute only when both predicates hold for the same route element, isAllowedPath returns the negated match exactly under route.negate, and the rule builder upper-cases the method and sets negate from '!='; preflight needs the flag and OPTIONS (C01.R4); isTrustedIP is true only as trustedIPs.Has(ip) for the non-nil, error-free result of GetClientIP(p.realClientIPParser, req); NetSet.Has is true only on a hit of ipNetMap.has for the same address, which is a lookup of Mask(ip, m.mask).String(); AddIPNet inserts IP.String() only into a per-mask map whose mask size was compared equal to the network's (or recurses after creating one with the network's mask), and both sides select the family through getNetMaps; ParseIPNet rejects CIDRs with host bits set. Added during the build: the address used for the trusted-IP decision is parsed from the first comma-separated element of the configured header (R6). Round 3: the host-bit test compares ipNet.IP with the address exactly as parsed (under R5); the header parser exists only under reverse-proxy mode (R7); remote-address rule (R8). Round 4: the operand of the rule match is the decoded path (url.URL.Path), never the percent-encoded spelling (under R1); the operator's skip-auth routes, skip-auth regexes and trusted-IP entries are never rewritten between option loading and the code that compiles them (R9). Round 6: no module code writes Request.RemoteAddr (under R8); the option loader's viper switches are a reviewed closed list (under R9). Round 7: request handling keeps no state of its own between requests — no store, map update, in-place builtin, atomic/sync.Map write or pointer-receiver library call (singleflight, caches) reached from ServeHTTP targets a package-level variable, an object built at start-up, or a constructor variable captured by the handler it returned, declared in the packages implementing this property (RS; a class-wide who-may-write rule with zero instances today: a correct memoisation would be reported until reviewed). Nothing stored into a compiled skip-auth rule is carried over from the previous configured entry (loop-carried value; under R2).",
+		Explanation: "Decides which request data can reach the bypass decisions: the string given to every skip-auth route regex is, on every path, query- and fragment-free — the Path of url.Parse(u), u cut at the first '?', or u itself under the fact that it contains no '?', where u is the guarded request-URI accessor's result (taint rule, unknown origin = violation); isAllowedMethod is true only for an empty rule method or equality with req.Method, isAllowedRoute only when both predicates hold for the same route element, isAllowedPath returns the negated match exactly under route.negate, and the rule builder upper-cases the method and sets negate from '!='; preflight needs the flag and OPTIONS (C01.R4); isTrustedIP is true only as trustedIPs.Has(ip) for the non-nil, error-free result of GetClientIP(p.realClientIPParser, req); NetSet.Has is true only on a hit of ipNetMap.has for the same address, which is a lookup of Mask(ip, m.mask).String(); AddIPNet inserts IP.String() only into a per-mask map whose mask size was compared equal to the network's (or recurses after creating one with the network's mask), and both sides select the family through getNetMaps; ParseIPNet rejects CIDRs with host bits set. Added during the build: the address used for the trusted-IP decision is parsed from the first comma-separated element of the configured header (R6). Round 3: the host-bit test compares ipNet.IP with the address exactly as parsed (under R5); the header parser exists only under reverse-proxy mode (R7); remote-address rule (R8). Round 4: the operand of the rule match is the decoded path (url.URL.Path), never the percent-encoded spelling (under R1); the operator's skip-auth routes, skip-auth regexes and trusted-IP entries are never rewritten between option loading and the code that compiles them (R9). Round 6: no module code writes Request.RemoteAddr (under R8); the option loader's viper switches are a reviewed closed list (under R9). Round 7: request handling keeps no state of its own between requests — no store, map update, in-place builtin, atomic/sync.Map write or pointer-receiver library call (singleflight, caches) reached from ServeHTTP targets a package-level variable, an object built at start-up, or a constructor variable captured by the handler it returned, declared in the packages implementing this property (RS; a class-wide who-may-write rule with zero instances today: a correct memoisation would be reported until reviewed). Nothing stored into a compiled skip-auth rule is carried over from the previous configured entry (loop-carried value; under R2). Round 8: the per-request ReverseProxy flag that lets X-Forwarded-Uri replace the matched path is the operator's option and nothing else (R10, shared with C16.R3).",
 		NotDecided:  "the regular-expression engine, CIDR mask arithmetic over all addresses, IPv4-mapped IPv6 normalisation inside net.IP (values).",
 		Run:         runC15,
 	})
